@@ -4,6 +4,14 @@ import re
 
 from ..common import blit, coq_eval, zlit
 
+MANIFEST = {
+	'text': 'All 8 identifier laws are Qed theorems (Props/C13.v, closed under the global context) over the model of IdGenerator.py, '
+		'Metadata.py and the alias half of symbol.Network.Address, instantiated with the Gallina SHA3-256 and with constants/operators '
+		'regenerated from the source on every run; model and implementation are compared on seeded inputs for all 8 functions.',
+	'design_ref': 'DESIGN.md section 4, C13',
+	'technique': 'Coq proof over regenerated model + vm_compute correspondence with the Python implementation',
+}
+
 IMPORTS = 'From Symv Require Import Base.Bytes Base.PyOps Sym.Keccak Sym.Ids.'
 M63 = (1 << 63) - 1
 F63 = 1 << 63
